@@ -1,5 +1,6 @@
 import Sourmash.Lemmas.SeqTables
 import Sourmash.Lemmas.SeqRevcomp
+import Sourmash.Lemmas.SeqProt
 /-! Property C02 — sequence k-mers hash to the documented canonical values in every mode.
 Property theorems only; helper lemmas live in `Sourmash/Lemmas/Seq*.lean`.
 
@@ -149,5 +150,136 @@ theorem dna_revcomp_invariant (seq : List UInt8) (k : Nat) (seed : UInt64) (forc
 example : (fedHashes (run (St.new (revcomp [65, 67, 67]) 2 false false .dna 42) (fuelFor (revcomp [65, 67, 67])))).Perm
     (fedHashes (run (St.new [65, 67, 67] 2 false false .dna 42) (fuelFor [65, 67, 67]))) :=
   dna_revcomp_invariant _ 2 42 false (by decide) (by decide)
+
+/-! ## protein-family sketches -/
+
+/-- T-protein_stream.  Protein input to a protein / Dayhoff / HP sketch: the items are exactly the
+    hashes of every (k/3)-residue window of the upper-cased residue string after the documented
+    alphabet reduction, in order; no item is an error.  `len + 2` calls reach the end. -/
+theorem protein_stream (seq : List UInt8) (ksize : Nat) (seed : UInt64) (force : Bool) (m : Kmers.Mol)
+    (fuel : Nat) (hm : m ≠ .dna) (hk : 3 ≤ ksize) (hfuel : seq.length + 2 ≤ fuel) :
+    run (St.new seq ksize force true m seed) fuel
+      = (Kmers.proteinHashes m ksize seed seq).map .ok := by
+  have hk1 : ksize / 3 ≠ 0 := by omega
+  rw [new_prot, Kmers.proteinHashes,
+    run_prot (seq.map upper) (ksize / 3) seed force m hm _ 0 [] fuel rfl (by simp; omega)]
+  have hu : seq.map Kmers.upper = seq.map upper :=
+    List.map_congr_left (fun b _ => (Tables.upper_eq b).symm)
+  rw [hu, ← reducedU_eq, windows_eq_range' _ hk1, List.map_map, List.map_map, List.map_map]
+  simp [reducedU_eq]
+example : run (St.new [77, 97, 42, 200] 6 false true .dayhoff 42) 6
+    = (Kmers.proteinHashes .dayhoff 6 42 [77, 97, 42, 200]).map .ok :=
+  protein_stream _ 6 42 false .dayhoff 6 (by decide) (by decide) (by decide)
+
+/-- protein input to a DNA sketch: `Err(InvalidHashFunction)` as soon as there is a window, nothing
+    at all otherwise (the property says nothing about this case; recorded because the model has
+    the branch) -/
+theorem protein_into_dna_sketch (seq : List UInt8) (ksize : Nat) (seed : UInt64) (force : Bool) (fuel : Nat)
+    (hfuel : 1 ≤ fuel) :
+    run (St.new seq ksize force true .dna seed) fuel
+      = if ksize / 3 ≤ seq.length then [.errHf] else [] := by
+  obtain ⟨f, rfl⟩ : ∃ f, fuel = f + 1 := ⟨fuel - 1, by omega⟩
+  rw [new_prot]
+  by_cases h : ksize / 3 ≤ seq.length
+  · rw [if_pos h]
+    unfold run
+    rw [next_prot_dna _ _ _ _ _ _ (by simp; omega)]
+  · rw [if_neg h]
+    unfold run
+    rw [next_prot_none _ _ _ _ _ _ _ (by simp; omega)]
+example : run (St.new [65, 67] 3 false true .dna 42) 1 = [.errHf] := by
+  rw [protein_into_dna_sketch _ 3 42 false 1 (by decide)]; rfl
+
+/-- T-translate_stream.  DNA input to a protein / Dayhoff / HP sketch: nothing when the sequence is
+    shorter than 3·(k/3); otherwise one `Ok(0)` marker (the call that fills the buffer), then the
+    hashes of the (k/3)-windows of the six reading-frame translations under the standard genetic
+    code (frame 0, 1, 2; forward strand then reverse complement each; unknown codons → X; alphabet
+    reduced as documented), then one closing `Ok(0)` marker.  `len + buffer + 3 ≤ 3·len + 3` calls
+    reach the end; `fuelFor` (2·len + 4) is enough because the buffer holds at most 2·len hashes. -/
+theorem translate_stream (seq : List UInt8) (ksize : Nat) (seed : UInt64) (force : Bool) (m : Kmers.Mol)
+    (fuel : Nat) (hm : m ≠ .dna) (hk : 3 ≤ ksize) (hfuel : 2 * seq.length + 3 ≤ fuel) :
+    run (St.new seq ksize force false m seed) fuel
+      = if seq.length < 3 * (ksize / 3) then []
+        else .ok 0 :: (Kmers.translateHashes m ksize seed seq).map .ok ++ [.ok 0] := by
+  have hk1 : 1 ≤ ksize / 3 := by omega
+  obtain ⟨f, rfl⟩ : ∃ f, fuel = f + 1 := ⟨fuel - 1, by omega⟩
+  have hu : seq.map Kmers.upper = seq.map upper :=
+    List.map_congr_left (fun b _ => (Tables.upper_eq b).symm)
+  rw [new_tr seq ksize seed force m hm]
+  by_cases h : seq.length < 3 * (ksize / 3)
+  · rw [if_pos h]
+    unfold run
+    rw [next_tr_short _ _ _ _ _ hm (by simpa using h)]
+  · rw [if_neg h]
+    have h3 : 3 * (ksize / 3) ≤ (seq.map upper).length := by simp; omega
+    obtain ⟨hpos, hle⟩ := trBuf_length (seq.map upper) (ksize / 3) hk1 seed m h3
+    have hne : trBuf (seq.map upper) (ksize / 3) seed m ≠ [] := List.ne_nil_of_length_pos (by omega)
+    unfold run
+    rw [next_tr_first _ _ _ _ _ hm hk1 h3]
+    simp only
+    rw [run_tr _ _ _ _ _ hm 0 _ hne _ 0 f rfl (by omega) (by simp at hle; omega),
+      List.drop_zero, trBuf_eq _ _ hk1]
+    have : Kmers.translateHashes m ksize seed seq = (List.range 3).flatMap (fun fr =>
+        Kmers.frameHashes m (ksize / 3) seed ((seq.map upper).drop fr)
+          ++ Kmers.frameHashes m (ksize / 3) seed ((Kmers.revcomp (seq.map upper)).drop fr)) := by
+      simp only [Kmers.translateHashes, hu]
+      rw [if_neg (by simpa using h)]
+    rw [this]
+    rfl
+example : run (St.new [65, 84, 71, 78, 99, 99, 255] 6 false false .hp 42) 17
+    = if [65, 84, 71, 78, 99, 99, 255].length < 3 * (6 / 3) then []
+      else .ok 0 :: (Kmers.translateHashes .hp 6 42 [65, 84, 71, 78, 99, 99, 255]).map .ok ++ [.ok 0] :=
+  translate_stream _ 6 42 false .hp 17 (by decide) (by decide) (by decide)
+
+/-- T-nothing_else (protein family).  `add_protein` / `add_sequence` hand a protein-family sketch
+    exactly the specification's hashes (window hashes of the reduced residue string, resp. of the six
+    translations), in order — minus hashes that are literally 0, the skip sentinel — and succeed. -/
+theorem nothing_else_protein (seq : List UInt8) (ksize : Nat) (seed : UInt64) (force : Bool)
+    (m : Kmers.Mol) (hm : m ≠ .dna) (hk : 3 ≤ ksize) :
+    (fedHashes (run (St.new seq ksize force true m seed) (fuelFor seq))
+        = (Kmers.proteinHashes m ksize seed seq).filter (· != 0)
+      ∧ firstErr (run (St.new seq ksize force true m seed) (fuelFor seq)) = none)
+    ∧ (fedHashes (run (St.new seq ksize force false m seed) (fuelFor seq))
+        = (Kmers.translateHashes m ksize seed seq).filter (· != 0)
+      ∧ firstErr (run (St.new seq ksize force false m seed) (fuelFor seq)) = none) := by
+  refine ⟨?_, ?_⟩
+  · rw [protein_stream seq ksize seed force m _ hm hk (by unfold fuelFor; omega)]
+    exact ⟨fedHashes_ok _, firstErr_ok _⟩
+  · rw [translate_stream seq ksize seed force m _ hm hk (by unfold fuelFor; omega)]
+    by_cases h : seq.length < 3 * (ksize / 3)
+    · have : Kmers.translateHashes m ksize seed seq = [] := by
+        simp only [Kmers.translateHashes, List.length_map]; rw [if_pos h]
+      rw [if_pos h, this]; exact ⟨rfl, rfl⟩
+    · rw [if_neg h]
+      have e : (Item.ok 0 :: (Kmers.translateHashes m ksize seed seq).map Item.ok ++ [Item.ok 0])
+          = ((0 :: Kmers.translateHashes m ksize seed seq) ++ [0]).map Item.ok := by simp
+      rw [e, fedHashes_ok, firstErr_ok]
+      simp
+example : firstErr (run (St.new [65, 84, 71] 3 false false .protein 42) (fuelFor [65, 84, 71])) = none :=
+  (nothing_else_protein _ 3 42 false .protein (by decide) (by decide)).2.2
+
+/-- termination, all modes: iterating `next` from a fresh iterator ends within `fuelFor` = 2·len + 4
+    calls (len + buffer + 2 with buffer ≤ 2·len; a DNA sketch needs len + 2) — more fuel changes
+    nothing -/
+theorem terminates (seq : List UInt8) (ksize : Nat) (seed : UInt64) (force isProtein : Bool)
+    (m : Kmers.Mol) (fuel : Nat) (hk : if m = .dna ∧ isProtein = false then 1 ≤ ksize else 3 ≤ ksize)
+    (hfuel : fuelFor seq ≤ fuel) :
+    run (St.new seq ksize force isProtein m seed) fuel
+      = run (St.new seq ksize force isProtein m seed) (fuelFor seq) := by
+  unfold fuelFor at hfuel ⊢
+  by_cases hm : m = .dna
+  · subst hm
+    cases isProtein
+    · simp at hk
+      rw [dna_stream seq ksize seed force fuel hk (by omega), dna_stream seq ksize seed force _ hk (by omega)]
+    · rw [protein_into_dna_sketch _ _ _ _ _ (by omega), protein_into_dna_sketch _ _ _ _ _ (by omega)]
+  · have hk' : 3 ≤ ksize := by simpa [hm] using hk
+    cases isProtein
+    · rw [translate_stream seq ksize seed force m fuel hm hk' (by omega),
+        translate_stream seq ksize seed force m _ hm hk' (by omega)]
+    · rw [protein_stream seq ksize seed force m fuel hm hk' (by omega),
+        protein_stream seq ksize seed force m _ hm hk' (by omega)]
+example : run (St.new [65, 84, 71] 3 false false .hp 42) 99 = run (St.new [65, 84, 71] 3 false false .hp 42) (fuelFor [65, 84, 71]) :=
+  terminates _ 3 42 false false .hp 99 (by decide) (by decide)
 
 end Sourmash.C02
